@@ -145,29 +145,9 @@ func (d Date) Less(input Any) (Boolean, error) {
 // Add returns the result of d + input. Returns an
 // error if it is not a valid time-valued quantity.
 func (d Date) Add(input Quantity) (Date, error) {
-	var result time.Time
-	value := int(decimal.Decimal(input.value).IntPart())
-	switch input.unit {
-	case "year", "years":
-		result = addYear(d.date, value)
-	case "month", "months":
-		result = addMonth(d.date, value)
-	case "week", "weeks":
-		value = 7 * value
-		result = d.date.AddDate(0, 0, value)
-	case "day", "days":
-		result = d.date.AddDate(0, 0, value)
-	default:
-		return Date{}, fmt.Errorf("%w: can't add to date", ErrMismatchedUnit)
-	}
-
-	// Reformat to truncate date to initial precision. This causes the addition result
-	// to round down to the highest precision value.
-	result, err := time.Parse(string(d.l), result.Format(string(d.l)))
-	if err != nil {
-		return Date{}, err
-	}
-	return Date{result, d.l}, nil
+	// Adding is subtracting the negated amount: both directions convert an amount in
+	// a unit finer than the precision to whole units of the precision in the same way.
+	return d.Sub(input.Negate())
 }
 
 // Sub returns the result of d - input. Returns an error if the
